@@ -70,6 +70,28 @@ func InitGenesis(ctx context.Context, k keeper.Keeper, genState types.GenesisSta
 		}
 	}
 
+	// The number of matched bids recorded at the last end time of a batch auction is not
+	// part of the genesis state; it always equals the number of its bids flagged as
+	// matched, so it is restored from them. Without it an auction in the middle of
+	// its extended rounds would lose the count its next round is compared with.
+	matchedBidsLen := map[uint64]int64{}
+	for _, elem := range genState.BidList {
+		if elem.IsMatched {
+			matchedBidsLen[elem.AuctionId]++
+		}
+	}
+	auctions, err := k.Auctions(ctx)
+	if err != nil {
+		return err
+	}
+	for _, auction := range auctions {
+		if n := matchedBidsLen[auction.GetId()]; n > 0 && auction.GetType() == types.AuctionTypeBatch {
+			if err := k.SetMatchedBidsLen(ctx, auction.GetId(), n); err != nil {
+				return err
+			}
+		}
+	}
+
 	// Set all the vestingQueue
 	for _, elem := range genState.VestingQueueList {
 		_, err := k.Auction.Get(ctx, elem.AuctionId)
